@@ -79,7 +79,16 @@ func genC14Script(r *h.Rng, timeout time.Duration, timeoutsOn bool) c14Script {
 			// runtime's choice
 			d += 7 * time.Nanosecond
 		}
-		return c14Script{Family: "nonterm", Code: fmt.Sprintf("while(true){Env.sleep(%d)}", int64(d)), StepNs: int64(d)}
+		code := fmt.Sprintf("while(true){Env.sleep(%d)}", int64(d))
+		switch r.Intn(4) {
+		case 0:
+			// a script cannot talk its way out of the limit: not by catching ...
+			code = fmt.Sprintf("try { while(true){Env.sleep(%d)} } catch(e) {} 'done'", int64(d))
+		case 1:
+			// ... and not by catching and carrying on
+			code = fmt.Sprintf("for(;;){ try { while(true){Env.sleep(%d)} } catch(e) {} }", int64(d))
+		}
+		return c14Script{Family: "nonterm", Code: code, StepNs: int64(d)}
 	default:
 		k := r.Range(1, 5)
 		budget := timeout
